@@ -426,7 +426,8 @@ def thread_sweep(nlx, nly, threads, footprint):
     nx, ny = max(nlx, 8), max(nly, 6)
     q0 = rng.random((ny, nx))
     z, prof = default_profiles(n=6, zm=4.0, wind=(2.5, -1.5), ustar=0.35, mol=-80.0, closure="MOST")
-    kw = dict(srf_flx=q0, z=z, profiles=prof, domain=(nx * 10.0, ny * 7.5), levels=[2, 6], modes=(nlx, nly),
+    # (levels out of order and one of them twice: each slot of the request is filled, whatever the thread count)
+    kw = dict(srf_flx=q0, z=z, profiles=prof, domain=(nx * 10.0, ny * 7.5), levels=[[2, 6], [6, 2, 6, 3]][(nlx + nly + threads) % 2], modes=(nlx, nly),
               meas_pt=((3 * 10.0, 2 * 7.5) if footprint else (0.0, 0.0)), srf_bg_conc=0.0 if footprint else 0.4,
               footprint=footprint, halo=0.0, precision="double")
     out = {}
@@ -441,6 +442,52 @@ def thread_sweep(nlx, nly, threads, footprint):
     e = max(float(np.max(np.abs(out[threads][k] - out[1][k])) / max(float(np.max(np.abs(out[1][k]))), 1e-300)) for k in (0, 1))
     return Verdict(e <= TOL_ROUND, "modes (%d,%d) = %d marched components, %d threads vs 1 thread (%s): rel %.3g"
                    % (nlx, nly, nlx * nly - 1, threads, "footprint" if footprint else "dispersion", e), key="threads-change-result")
+
+
+@S.kind("wisdom-file")
+def wisdom_file(content, threads):
+    """The FFT layer keeps planning wisdom in a file of the working directory and reads it whenever it is (re-)initialised.
+    Whatever an earlier or concurrent run left there -- nothing, a complete file, an empty or cut-off file, a pickle of
+    something else, other bytes -- the solve returns the same fields and does not raise."""
+    import pickle
+    import bldfm.config as cfg
+    from bldfm.fft_manager import reset_fft_manager
+    ref, _ = solve_here("A-disp-d", 1)
+    path = os.path.join(os.getcwd(), "fftw_wisdom.pkl")
+    good = None
+    if os.path.exists(path):
+        with open(path, "rb") as f:
+            good = f.read()
+    try:
+        data = {"absent": None, "empty": b"", "not-wisdom": pickle.dumps({"a": 1}), "list": pickle.dumps([1, 2, 3]),
+                "bytes": b"\x00\x01 not a pickle \xff" * 7,
+                "cut": (good or pickle.dumps((b"x" * 40, b"y" * 40, b"z" * 40)))[: max(1, len(good or b"x" * 60) // 2)]}[content]
+        if data is None:
+            if os.path.exists(path):
+                os.unlink(path)
+        else:
+            with open(path, "wb") as f:
+                f.write(data)
+        reset_fft_manager()
+        try:
+            res, _ = solve_here("A-disp-d", threads)
+        except Exception as e:
+            return Verdict(False, "wisdom file %s, FFT layer re-initialised (%d threads): the solve raised %s: %s"
+                           % (content, threads, type(e).__name__, str(e)[:80]), key="history-changes-result")
+        e = _maxrel(res, ref)
+        return Verdict(e <= TOL_ROUND, "wisdom file %s, %d threads: rel %.3g to the solve before" % (content, threads, e),
+                       key="history-changes-result")
+    finally:
+        _normalise()
+        try:
+            if good is None:
+                if os.path.exists(path):
+                    os.unlink(path)
+            else:
+                with open(path, "wb") as f:
+                    f.write(good)
+        except OSError:
+            pass
 
 
 @S.kind("args-not-mutated")
@@ -501,6 +548,9 @@ def generate(tier, rng):
             k += 1
             if thorough or k % 2 or (nlx * nly - 1) // t % 8 == 0:
                 yield "thread-sweep", dict(nlx=nlx, nly=nly, threads=t, footprint=bool(k % 3 == 0))
+    for content in ("absent", "empty", "not-wisdom", "list", "bytes", "cut"):
+        for t in (1, threads[-1]):
+            yield "wisdom-file", dict(content=content, threads=t)
     for what in INPLACE:
         yield "history-inplace", dict(what=what)
     for s_ in ("A-fp-s", "B-disp-d", "B-fp-d", "A-disp-d"):
